@@ -166,6 +166,14 @@ CHECKS["C10"] = c10
 CHECKS["C06"] = c06
 
 
+def c20(prop, tier, seed):
+    import smallchecks
+    return smallchecks.check_c20(prop, tier, seed)
+
+
+CHECKS["C20"] = c20
+
+
 FW_TEXT = ("TLC checks the property invariant on mechanism || observer exhaustively within small constants; "
            "every behaviour of a smaller configuration is replayed on the real code in lock-step (all hook lines and the "
            "full internal snapshot compared), and seeded random executions of the real code are validated line by line "
@@ -198,7 +206,19 @@ META["C06"] = dict(
     design_ref="DESIGN.md section 6/C06",
     technique="TLA+ spec of the sampling function checked by TLC over all vectors; complete enumeration of the implementation's draw space validated against the spec")
 
+META["C20"] = dict(
+    engine="ffi", level="model_checking",
+    text=("TLC checks the lifecycle model (every sequence of <= 4 API calls over all NULL / invalid argument classes): count <= num_machines, "
+          "errors write nothing, no instance without an Ok start; the real extern \"C\" functions are driven next to a Rust Framework over the "
+          "same deterministic machines and every recorded call is validated against the spec's StartCode / EventsCode / Conv "
+          "(field by field), with canaries around the output buffer and heap accounting"),
+    note="trusted: TLC, the driver's canary / allocator bookkeeping; random scenarios are sampling",
+    design_ref="DESIGN.md section 6/C20",
+    technique="TLA+ lifecycle/translation spec (Ffi.tla) checked by TLC; recorded calls of the real C API validated against it")
+
 ENGINES = [
+    dict(name="ffi", path="/verif/spec/Ffi.tla", serves_properties=["C20"],
+         kind_free_text="TLA+ spec of the C API, TLC, ffi_driver on the real extern functions"),
     dict(name="sampling", path="/verif/spec/Sampling.tla", serves_properties=["C06"],
          kind_free_text="TLA+ spec of State::sample_state, TLC over all small vectors, sampling_enum enumerates all 2^23 draws"),
     dict(name="framework", path="/verif/spec/Framework.tla",
